@@ -229,8 +229,19 @@ func zzFinState(isClient bool, suite *zzFinSuite, nms int) *dtlsstate.State12 {
 	return st
 }
 
+// zzFinConfig: with or without a session store whose operations all succeed (Set / Del return nil, Get finds nothing):
+// whether the endpoint keeps sessions must not change what a Finished check decides - in particular a successful
+// store operation on the failure path must not stand in for the verdict (seed C04k-1).
 func zzFinConfig() *dtlsconfig.HandshakeConfig {
-	return &dtlsconfig.HandshakeConfig{Log: zzFinLog{}}
+	cfg := &dtlsconfig.HandshakeConfig{Log: zzFinLog{}}
+	if zzsymChoice("session_store", 2) == 1 {
+		cfg.HasSessionStore = true
+		cfg.GetSession = func([]byte) ([]byte, []byte, error) { return nil, nil, nil }
+		cfg.SetSession = func(_, _, _ []byte) error { return nil }
+		cfg.DelSession = func([]byte) error { return nil }
+	}
+
+	return cfg
 }
 
 // ---------------------------------------------------------------------------------------------
